@@ -157,6 +157,23 @@ Theorem C05_fs_of_rate : forall r u, fs_of_rate r u == r.
 Proof. exact fs_of_rate_id. Qed.
 Print Assumptions C05_fs_unit_free.
 
+(* ---- one method dict object handed to several Coherence / SparseCoherence / SeedCoherence analyzers.
+        full statement: every analyzer uses the rate of ITS OWN series,
+          forall rates, shared_dict_fs None rates = rates.
+        It holds when the dict is not shared or all series have one rate; otherwise every analyzer uses
+        the rate of the FIRST one (known finding C05/method-dict/shared-between-analyzers). *)
+Theorem C05_shared_method_dict_ok_guarded : forall r rates,
+  shared_dict_fs None [r] = [r] /\
+  ((forall x, In x rates -> x = r) -> shared_dict_fs None rates = rates).
+Proof. intros; split; [reflexivity|apply shared_dict_same_rate]. Qed.
+Theorem C05_shared_method_dict_refuted :
+  (forall r t, shared_dict_fs None (r :: t) = map (fun _ => r) (r :: t)) /\
+  (exists rates, shared_dict_fs None rates <> rates).
+Proof.
+  split; [exact shared_dict_first|]. exists [10; 2]. rewrite w_shared_dict. discriminate.
+Qed.
+Print Assumptions C05_shared_method_dict_refuted.
+
 (* ---- the table: every estimator / analyzer site returns the true frequencies of the bins of the
         spectrum it returns, on all inputs outside the refuted classes (site_good) — given the
         library contract of matplotlib.mlab for the Welch sites *)
